@@ -9,14 +9,11 @@ Definition strip_generated (p : string) : option string :=
   then Some (substring (String.length generated_prefix) (String.length p - String.length generated_prefix) p)
   else None.
 
-(* (a) a listed path exists, or is generated/<f> where f is a file the real floogen writes for a
-   shipped example whose description name is one of the entry's target atoms *)
+(* (a) a listed path exists, or is a path that the project's own flow (`make sources`: the Makefile's output
+   directory joined with the file name the real floogen writes) produces for a shipped example whose description
+   name is one of the entry's target atoms *)
 Definition entry_ok (tree : list string) (gen : list (string * string)) (atoms : list string) (p : string) : bool :=
-  mem p tree ||
-  match strip_generated p with
-  | Some f => existsb (fun g => str_eqb (snd g) f && mem (fst g) atoms) gen
-  | None => false
-  end.
+  mem p tree || existsb (fun g => str_eqb (snd g) p && mem (fst g) atoms) gen.
 
 (* (b) R contains the top modules and is closed under instantiation *)
 Definition closedb (edges : list (string * string)) (R : list string) : bool :=
